@@ -201,7 +201,9 @@ pub fn execute(cfg: &ExecCfg, ch: &mut Chooser) -> MResult<ExecOut> {
                 let mut inject: Option<i32> = None;
                 // the kernel answers EAGAIN to openat2 by itself whenever anything on the machine renames or mounts during
                 // the call; the library's immediate retry of the identical call is not a new choice point
-                let spurious_retry = ev.name == "openat2" && out.events.last().map(|p| p.w == w && p.name == "openat2" && p.injected.is_none() && p.rval == -(libc::EAGAIN as i64) && p.path == ev.path).unwrap_or(false);
+                // (between the two calls the library only builds the error value: gettid, stat/readlink of its own fd links)
+                let spurious_retry = ev.name == "openat2" && out.events.iter().rev().filter(|p| p.w == w).find(|p| p.tree_rel || p.name == "openat2")
+                    .map(|p| p.name == "openat2" && p.injected.is_none() && p.rval == -(libc::EAGAIN as i64) && p.path == ev.path).unwrap_or(false);
                 match &cfg.mode {
                     _ if spurious_retry => {}
                     Mode::Attack(muts) if ev.tree_rel => {
